@@ -58,6 +58,7 @@ pub fn run(args: &[String]) {
         emit(json!({"kind": "pmenum", "prefix": prefix, "n": n, "codes": out}));
       }
     }
+    "json" => json_floats(arg_u64(args, 1, 1), arg_u64(args, 2, 100000) as usize),
     "cfg" => cfg_stream(arg_u64(args, 1, 1), arg_u64(args, 2, 50) as usize, None),
     "replay" => {
       let mut text = String::new();
@@ -216,4 +217,115 @@ fn cfg_stream(seed: u64, n: usize, only: Option<Value>) {
     o["text"] = json!(text);
     emit(o);
   }
+}
+
+
+/// JSON float round trip (serde_json with float_roundtrip + ryu): f64 -> to_string -> from_str must give the same bits.
+/// Classes: random bit patterns, subnormals, 17-significant-digit decimals, integers beyond 2^53, boundary values, decimal
+/// strings that are hard to parse (reference: Rust's correctly rounded str::parse::<f64>), numbers inside a full configuration;
+/// and what happens to non-finite values.
+fn json_floats(seed: u64, n: usize) {
+  let mut rng = Rng::new(seed);
+  let mut fails: Vec<Value> = vec![];
+  let mut counts = serde_json::Map::new();
+  let mut check = |class: &str, x: f64, fails: &mut Vec<Value>, counts: &mut serde_json::Map<String, Value>| {
+    let c = counts.entry(class.to_string()).or_insert(json!(0));
+    *c = json!(c.as_u64().unwrap_or(0) + 1);
+    let t = serde_json::to_string(&x).unwrap_or_default();
+    let back: Result<f64, _> = serde_json::from_str(&t);
+    let std_back: Result<f64, _> = t.parse::<f64>();
+    let ok = matches!(&back, Ok(y) if y.to_bits() == x.to_bits()) && matches!(&std_back, Ok(y) if y.to_bits() == x.to_bits());
+    if !ok && fails.len() < 20 {
+      fails.push(json!({"class": class, "x": fx(x), "text": t, "serde": back.as_ref().ok().map(|y| fx(*y)), "std": std_back.as_ref().ok().map(|y| fx(*y))}));
+    }
+    ok
+  };
+  let mut bad = 0usize;
+  for _ in 0..n {
+    // random finite bit pattern
+    let mut b = rng.next_u64();
+    if (b >> 52) & 0x7ff == 0x7ff {
+      b &= !(1u64 << 62);
+    }
+    if !check("random_bits", f64::from_bits(b), &mut fails, &mut counts) { bad += 1; }
+    // subnormal
+    let sb = rng.next_u64() & 0x800f_ffff_ffff_ffff;
+    if !check("subnormal", f64::from_bits(sb), &mut fails, &mut counts) { bad += 1; }
+    // 17 significant digits of moderate size (what an unrounded exported field looks like)
+    let m = rng.range(1.0, 10.0) * 10f64.powi(rng.below(9) as i32 - 2);
+    let x17 = (m * (1.0 + rng.unit() * 1e-9)) * 1e-6 / 1e-6;
+    if !check("seventeen_digits", if rng.coin() { -x17 } else { x17 }, &mut fails, &mut counts) { bad += 1; }
+    // 4-decimal numbers (what the exported configuration contains)
+    let d4 = ((rng.range(-1e5, 1e5) * 1e4).round()) / 1e4;
+    if !check("four_decimals", d4, &mut fails, &mut counts) { bad += 1; }
+    // integers beyond 2^53, huge / tiny magnitudes
+    let big = (rng.next_u64() >> 1) as f64 * if rng.coin() { 1.0 } else { 1e280 };
+    if !check("large", big, &mut fails, &mut counts) { bad += 1; }
+  }
+  for x in [0.0, -0.0, f64::MIN_POSITIVE, f64::MAX, f64::MIN, 5e-324, -5e-324, 2.2250738585072011e-308, 2.2250738585072014e-308,
+            9007199254740993.0, 9007199254740992.0, 1.7976931348623157e308, 0.1, 0.3, 1e23, 8.41e21, 9.5367431640625e-7, 1.0000000000000002,
+            0.30000000000000004, 123456.78900000002, 4.35, 987.4510000000001, -1006.9876521728515] {
+    if !check("boundary", x, &mut fails, &mut counts) { bad += 1; }
+  }
+  // decimal strings known to be hard for float parsers: serde_json::from_str vs the correctly rounded std parser
+  let mut hard_bad: Vec<Value> = vec![];
+  let hard = ["2.2250738585072011e-308", "2.2250738585072012e-308", "9007199254740993", "9007199254740992.5", "1e23", "8.5e-324", "2.4703282292062327e-324",
+              "2.4703282292062328e-324", "0.500000000000000166533453693773481063544750213623046875", "1.00000000000000011102230246251565404236316680908203125",
+              "1.00000000000000011102230246251565404236316680908203124", "1.00000000000000011102230246251565404236316680908203126",
+              "179769313486231580793728971405303415079934132710037826936173778980444968292764750946649017977587207096330286416692887910946555547851940402630657488671505820681908902000708383676273854845817711531764475730270069855571366959622842914819860834936475292719074168444365510704342711559699508093042880177904174497791",
+              "3.4028234664e38", "7.038531e-26", "1.7976931348623158e308", "4.9406564584124654e-324", "0.000000000000000000000000000000000000000000000000000000000000000000000000000000000000000000001e100", "123456789012345678901234567890"];
+  for t in hard {
+    let a: Result<f64, _> = serde_json::from_str(t);
+    let b: Result<f64, _> = t.parse::<f64>();
+    let same = match (&a, &b) { (Ok(x), Ok(y)) => x.to_bits() == y.to_bits(), (Err(_), Ok(y)) => !y.is_finite(), _ => false };
+    if !same {
+      hard_bad.push(json!({"text": t, "serde": a.as_ref().ok().map(|y| fx(*y)), "std": b.as_ref().ok().map(|y| fx(*y))}));
+    }
+  }
+  // numbers inside a full configuration: to_string / from_str of SPDCConfig with arbitrary finite fields
+  let mut cfg_bad: Vec<Value> = vec![];
+  let mut cfg_n = 0usize;
+  for _ in 0..(n / 50 + 20) {
+    let mut c = SPDCConfig::default();
+    let mut r = || { let mut b = rng.next_u64(); if (b >> 52) & 0x7ff == 0x7ff { b &= !(1u64 << 62); } f64::from_bits(b) };
+    c.crystal.phi_deg = r(); c.crystal.theta_deg = AutoCalcParam::Param(r()); c.crystal.length_um = r(); c.crystal.temperature_c = r();
+    c.pump.wavelength_nm = r(); c.pump.waist_um = r(); c.pump.bandwidth_nm = r(); c.pump.average_power_mw = r(); c.pump.spectrum_threshold = Some(r());
+    c.signal.wavelength_nm = r(); c.signal.phi_deg = r(); c.signal.theta_deg = Some(r()); c.signal.waist_um = r();
+    c.signal.waist_position_um = AutoCalcParam::Param(r());
+    c.idler = AutoCalcParam::Param(IdlerConfig { wavelength_nm: r(), phi_deg: r(), theta_deg: None, theta_external_deg: Some(r()), waist_um: r(),
+                                                  waist_position_um: AutoCalcParam::Param(r()) });
+    c.periodic_poling = PeriodicPolingConfig::Config { poling_period_um: AutoCalcParam::Param(r()),
+                                                       apodization: ApodizationConfig::Gaussian { fwhm_um: r() } };
+    c.deff_pm_per_volt = r();
+    cfg_n += 1;
+    let t = serde_json::to_string(&c).unwrap_or_default();
+    let back: Result<SPDCConfig, _> = serde_json::from_str(&t);
+    if !matches!(&back, Ok(b) if *b == c) && cfg_bad.len() < 5 {
+      cfg_bad.push(json!({"text": t, "error": back.as_ref().err().map(|e| e.to_string())}));
+    }
+  }
+  // non-finite values: what does to_string do, and does the text come back?
+  let mut nonfinite = vec![];
+  for (name, x) in [("NaN", f64::NAN), ("inf", f64::INFINITY), ("-inf", f64::NEG_INFINITY)] {
+    let t = serde_json::to_string(&x).unwrap_or_else(|e| format!("ERROR {}", e));
+    let back: Result<f64, _> = serde_json::from_str(&t);
+    let mut c = SPDCConfig::default();
+    c.pump.waist_um = x;
+    let tc = serde_json::to_string(&c);
+    let cb: Option<Result<SPDCConfig, String>> = tc.as_ref().ok().map(|t| serde_json::from_str::<SPDCConfig>(t).map_err(|e| e.to_string()));
+    let mut c2 = SPDCConfig::default();
+    c2.pump.spectrum_threshold = Some(x);
+    let t2 = serde_json::to_string(&c2).unwrap_or_default();
+    let b2: Result<SPDCConfig, _> = serde_json::from_str(&t2);
+    let mut c3 = SPDCConfig::default();
+    c3.signal.waist_position_um = AutoCalcParam::Param(x);
+    let t3 = serde_json::to_string(&c3).unwrap_or_default();
+    let b3: Result<SPDCConfig, _> = serde_json::from_str(&t3);
+    nonfinite.push(json!({"value": name, "f64_text": t, "f64_back": match back { Ok(y) => format!("{:?}", y), Err(e) => format!("Err: {}", e) },
+      "required_f64_field": match cb { Some(Ok(_)) => "parses".to_string(), Some(Err(e)) => format!("text has null; from_str Err: {}", e), None => "to_string Err".to_string() },
+      "option_field": match b2 { Ok(b) => format!("text has null; parses back as {:?} (value silently dropped)", b.pump.spectrum_threshold), Err(e) => format!("Err: {}", e) },
+      "autocalc_field": match b3 { Ok(b) => format!("parses back as {:?}", b.signal.waist_position_um), Err(e) => format!("text has null; from_str Err: {}", e) }}));
+  }
+  emit(json!({"kind": "json_floats", "n": n, "counts": counts, "bad": bad, "fails": fails, "hard_strings": hard.len(), "hard_bad": hard_bad,
+              "configs": cfg_n, "config_bad": cfg_bad, "nonfinite": nonfinite}));
 }
